@@ -176,14 +176,12 @@ impl Widget {
             if let Some(refs) = expr::build_object_ref_list(p, diagnostics) {
                 refs.into_iter()
                     .map(|id| {
-                        let o = ctx
-                            .object_tree
-                            .get_by_id(&id)
-                            .expect("object ref must be valid");
-                        if is_action_separator(ctx, o, diagnostics) {
-                            ACTION_SEPARATOR_NAME.to_owned()
-                        } else {
-                            id
+                        // the referenced object may have no id: e.g. [this.menuAction()]
+                        match ctx.object_tree.get_by_id(&id) {
+                            Some(o) if is_action_separator(ctx, o, diagnostics) => {
+                                ACTION_SEPARATOR_NAME.to_owned()
+                            }
+                            _ => id,
                         }
                     })
                     .collect()
